@@ -246,3 +246,26 @@ Theorem C01_imperative_scalar_programs_with_calls_and_loops :
   end.
 Proof. exact in_proved_fragment_sound. Qed.
 Print Assumptions C01_imperative_scalar_programs_with_calls_and_loops.
+
+(* ------------------------------------------------------------------ THE FULL FRAGMENT
+   (Compile/ValEnc.v, TSemSemAgg.v, TSemSemMatch.v, TSemSemFull.v): values of EVERY type (the
+   relation [has_enc]: canonical encodings, = Sem.encode on in-range values), tuple / struct /
+   array / enum literals and accessors, dynamic indexing with its OutOfBounds panic, assignment
+   through any chain of index / tuple / field accessors, `for` over arrays and ranges, `let` with
+   irrefutable patterns, `match` with every pattern form, blocks, if/else, && / ||, all scalar
+   operators and casts.  Not yet in it: function calls (proved separately for the scalar
+   fragment above), the join built-ins, `*` with a literal operand, global constants.
+   [covered_program] is the boolean union of all fragments; [canonical_main_args] says the
+   argument bits are canonical encodings (decode-then-encode is the identity: enum padding is
+   zero); both are evaluated by the extracted checker (per program / per input). *)
+Theorem C01_covered_programs_bit_semantics_is_source_semantics :
+  forall P fuel fw fT args o outs,
+  covered_program fw P = true -> TSemSemFull.canonical_main_args P args = true ->
+  tsem_program fT P args = Ok (o, outs) ->
+  match Sem.run_main fuel P args with
+  | Sem.RunOk bits _ => o = None /\ outs = bits
+  | Sem.RunPanic r m => o = Some (preason_num (pr r), PanicSem.ploc32 (ploc_of m))
+  | Sem.RunStuck _ | Sem.RunNoFuel => True
+  end.
+Proof. exact covered_program_sound. Qed.
+Print Assumptions C01_covered_programs_bit_semantics_is_source_semantics.
